@@ -125,9 +125,12 @@ type Ing struct {
 	Rules    [][]Backend `json:",omitempty"` // rules -> paths
 }
 type Route struct {
-	Ns, Name   string
-	To         string   `json:",omitempty"`
-	Alt        []string `json:",omitempty"`
+	Ns, Name string
+	To       string   `json:",omitempty"`
+	Alt      []string `json:",omitempty"`
+	// Kinds: the kind of the target references, parallel to [To, Alt...]: "" = Service written out, "omit" = field
+	// omitted (the API defaults it to Service), anything else = that literal (not a Service: the reference is ignored)
+	Kinds      []string `json:",omitempty"`
 	TargetNum  int      `json:",omitempty"`
 	TargetName string   `json:",omitempty"`
 }
@@ -596,3 +599,18 @@ func (w *World) FindWorkload(peerString string) *Workload {
 }
 
 func sortStrings(xs []string) { sort.Strings(xs) }
+
+// refKind returns the rendered kind of the i-th target reference of the route and whether it designates a Service.
+func (r *Route) refKind(i int) (kind string, isService bool) {
+	k := ""
+	if i < len(r.Kinds) {
+		k = r.Kinds[i]
+	}
+	switch k {
+	case "":
+		return "Service", true
+	case "omit":
+		return "", true
+	}
+	return k, k == "Service"
+}
